@@ -71,6 +71,10 @@ func PeerRxQueue(c *net.TCPConn) (int, error) {
 				}
 			}
 			if l == pl && r == pr {
+				if fl[3] != "01" && fl[3] != "08" {
+					f.Close()
+					return 0, ErrNotFound
+				}
 				q := strings.Split(fl[4], ":")
 				f.Close()
 				if len(q) != 2 {
@@ -90,27 +94,37 @@ func PeerRxQueue(c *net.TCPConn) (int, error) {
 func WaitPeerDrained(c *net.TCPConn, d time.Duration) bool {
 	deadline := time.Now().Add(d)
 	for {
-		// everything we wrote must first have been received by the peer's TCP stack (acked) ...
-		if OutQueue(c) > 0 {
-			if time.Now().After(deadline) {
-				return false
-			}
-			time.Sleep(50 * time.Microsecond)
-			continue
-		}
-		// ... and then consumed by the peer application
 		rx, err := PeerRxQueue(c)
-		if err == nil && rx == 0 {
-			return true
-		}
 		if err == ErrNotFound {
 			return true // the peer socket is gone: it cannot read any more
+		}
+		// everything we wrote must have been received by the peer's TCP stack (acked) and then consumed by
+		// the peer application
+		if err == nil && rx == 0 && OutQueue(c) == 0 {
+			// re-check the peer queue: data acked between the two probes would be visible now
+			rx2, err2 := PeerRxQueue(c)
+			if err2 == ErrNotFound || (err2 == nil && rx2 == 0) {
+				return true
+			}
 		}
 		if time.Now().After(deadline) {
 			return false
 		}
 		time.Sleep(50 * time.Microsecond)
 	}
+}
+
+// OutQueue returns the number of bytes we wrote that the peer's TCP stack has not acknowledged yet (SIOCOUTQ).
+func OutQueue(c *net.TCPConn) int {
+	rc, err := c.SyscallConn()
+	if err != nil {
+		return -1
+	}
+	n := int32(-1)
+	rc.Control(func(fd uintptr) {
+		syscall.Syscall(syscall.SYS_IOCTL, fd, 0x5411, uintptr(unsafe.Pointer(&n)))
+	})
+	return int(n)
 }
 
 // InQueue returns the number of bytes queued for reading on our own socket (FIONREAD); -1 if unknown.
@@ -126,19 +140,6 @@ func InQueue(c net.Conn) int {
 	n := int32(-1)
 	rc.Control(func(fd uintptr) {
 		syscall.Syscall(syscall.SYS_IOCTL, fd, 0x541B, uintptr(unsafe.Pointer(&n)))
-	})
-	return int(n)
-}
-
-// OutQueue returns the number of bytes we wrote that the peer's TCP stack has not acknowledged yet (SIOCOUTQ).
-func OutQueue(c *net.TCPConn) int {
-	rc, err := c.SyscallConn()
-	if err != nil {
-		return -1
-	}
-	n := int32(-1)
-	rc.Control(func(fd uintptr) {
-		syscall.Syscall(syscall.SYS_IOCTL, fd, 0x5411, uintptr(unsafe.Pointer(&n)))
 	})
 	return int(n)
 }
